@@ -304,6 +304,14 @@ def check_entry_new(F, C):
             else:
                 got.append(str(v)[:60])
         want = "A: <a1>\nB: <b1>\n <b2>\n <b3>\nA: <a2>\nA: <a3>\n \n <a5>\n"
+        # every line, also an empty one, is a VALUE token of its own (Entry::value joins VALUE tokens)
+        nvals = []
+        for ctl, v, s in res:
+            v = I.deref_val(s, v)
+            if ctl == OK and v[0] == "enum" and v[2] and v[2][0][0] == "abs":
+                h = treemodel.heap_get(s)
+                nvals.append([sum(1 for t in h[e][3] if h[t][1] == "T" and h[t][2] == "VALUE") for e in h[v[2][0][2]][3] if h[e][1] == "N" and h[e][2] == "ENTRY"])
+        C.ob("C04/from-pairs-list", key.split("FromIterator<")[1][:30] + " (value lines)", nvals == [[1, 3, 1, 3]], "VALUE tokens per field: %s, expected [1, 3, 1, 3] (an empty line is still a line)" % nvals, f["sp"])
         C.ob("C04/from-pairs-list", key.split("FromIterator<")[1][:30], got == [want], "builds %r, expected %r (one field per pair, repeated names kept, every line kept)" % (got, want), f["sp"])
 
 
